@@ -116,6 +116,31 @@ Theorem C07_simultaneous_open_converges : forall accept A B fA fX fB f0 f1 f2 f3
              established accept A B1 fA fB f1 f2 f3 f4 rA tsA.
 Proof. exact simultaneous_open_converges. Qed.
 
+(* the same, starting from the pending Send itself: no current session survives the
+   expiry step and no handshake is in progress, so the rekey timer the Send arms creates
+   the initiator session and emits the InitHello; then as above *)
+Theorem C07_pending_send_completes : forall accept A B fA fB f1 f2 f3 f4 rank ts,
+  InvP accept A -> InvP accept B -> fresh_tag A fA -> ch_s2 (expire A) = None ->
+  bound_ok accept A (ch_key B) ->
+  ch_s2 B = None -> fresh_tag B fB -> orank_ne (ch_s0 B) rank -> orank_ne (ch_s1 B) rank ->
+  ts <? ch_rts B = false -> bound_ok accept B (ch_key A) ->
+  let A1 := fst (chan_rekey fA rank ts A) in
+  In (emit A1 (init0 fA rank ts) MIH) (snd (chan_rekey fA rank ts A)) /\
+  exists B1, chan_deliver accept fB B (emit A1 (init0 fA rank ts) MIH) =
+               Ok (B1, DSend (emit B1 (resp1 fB fA (ch_key A1) rank ts) MRH)) /\
+             established accept A1 B1 fA fB f1 f2 f3 f4 rank ts.
+Proof. exact pending_send_completes. Qed.
+
+(* retransmission: every firing of the handshake timer re-sends the message the
+   prospective session is waiting to have answered, as long as that session has not
+   expired (with C07_timer_keeps_firing: until it is answered) *)
+Theorem C07_handshake_timer_retransmits : forall accept ch se,
+  InvP accept ch -> ch_s2 ch = Some se -> expired se = false -> awaiting se ->
+  exists k, write_handshake (cs se) = Ok (Some k) /\
+            ch_s2 (fst (chan_handshake ch)) = Some se /\
+            In (emit (fst (chan_handshake ch)) se k) (snd (chan_handshake ch)).
+Proof. exact handshake_timer_retransmits. Qed.
+
 (* the hypotheses of C07_channel_establishes are met by states that carry old sessions *)
 Example C07_establish_not_vacuous :
   let old (t : N) (ini : bool) (k : N) := mkCS (with_hs (new_sess ini) 4 None 40) t (Some (t + 100)) (Some k) t 5 30 in
@@ -149,3 +174,5 @@ Print Assumptions C07_channel_establishes.
 Print Assumptions C07_simultaneous_open_converges.
 Print Assumptions C07_timer_keeps_firing.
 Print Assumptions C07_timer_stopped_is_silent.
+Print Assumptions C07_pending_send_completes.
+Print Assumptions C07_handshake_timer_retransmits.
